@@ -1,6 +1,9 @@
 import PhyVerif.Driver.Json
 import PhyVerif.Model.C18
+import PhyVerif.Model.C18c
+import PhyVerif.Model.C18p
 import PhyVerif.Spec.C18
+import PhyVerif.Spec.C18c
 namespace PhyVerif.Driver
 open Lean PhyVerif.C18
 
@@ -14,7 +17,8 @@ partial def asPV (j : Json) : R PV := do
   | "float" => pure (.float (← getNat j "v"))
   | "str" => pure (.str (← getStr j "v"))
   | "np" => pure (.npScalar (← getInt j "v"))
-  | "arr" => pure (.arr (← getStr j "dtype") (← getNats j "shape") (← getInts j "items"))
+  | "arr" => pure (.arr (← getStr j "dtype") (← getNats j "shape") (← getInts j "strides") (← getInt j "offset")
+                        (← getInts j "mem"))
   | "list" => do
     let l ← fld j "v" >>= asArr
     asPVList l
@@ -42,7 +46,11 @@ partial def jPV : PV → Json
   | .float f => Json.mkObj [("t", "float"), ("v", jNat f)]
   | .str s => Json.mkObj [("t", "str"), ("v", Json.str s)]
   | .npScalar i => Json.mkObj [("t", "np"), ("v", jInt i)]
-  | .arr d sh it => Json.mkObj [("t", "arr"), ("dtype", Json.str d), ("shape", jNats sh), ("items", jInts it)]
+  | .arr d sh st off mem =>
+    -- `items`: the elements in row-major order (for an array that came back: its buffer)
+    Json.mkObj [("t", "arr"), ("dtype", Json.str d), ("shape", jNats sh), ("strides", jInts st),
+                ("offset", jInt off), ("items", jInts (gather mem sh st off))]
+  | .payload d it => Json.mkObj [("t", "payload"), ("dtype", Json.str d), ("items", jInts it)]
   | .list l => Json.mkObj [("t", "list"), ("v", Json.arr (jPVList l).toArray)]
   | .dict kv => Json.mkObj [("t", "dict"), ("v", Json.arr (jPVDict kv).toArray)]
 partial def jPVList : PVList → List Json
@@ -71,14 +79,155 @@ def jCell : Cell → Json
   | .float f => Json.mkObj [("float", jNat f)]
   | .text s => Json.mkObj [("text", Json.str s)]
 
-/-- canonical renderer/parser pair used by the driver: floats are `F<token>`, text cells start with `T` -/
+/-- canonical renderer of abstract cells (used by the C10 driver): floats are `F<token>`, text cells start
+with `T` -/
 def renderCell : Cell → String
   | .int i => s!"I{i}"
   | .float f => s!"F{f}"
   | .text s => "T" ++ s
 
+def jNum : Num → Json
+  | .int i => Json.mkObj [("int", jInt i)]
+  | .float neg m e => Json.mkObj [("float", Json.arr #[Json.bool neg, jNat m, jInt e])]
+  | .inf neg => Json.mkObj [("inf", Json.bool neg)]
+  | .nan => Json.mkObj [("nan", Json.bool true)]
+  | .text s => Json.mkObj [("text", Json.str s)]
+
+/-- a cell handed to `write_tsv`: {"int": i} | {"float": [neg, m, e]} (the double ±m·2^e) | {"text": s} -/
+def asWCell (j : Json) : R WCell := do
+  if hasFld j "int" then return .int (← getInt j "int")
+  if hasFld j "float" then
+    let a ← fld j "float" >>= asArr
+    match a with
+    | [n, m, e] => return .float ⟨← asBool n, ← asNat m, ← asInt e⟩
+    | _ => .error "float cell"
+  return .text (← getStr j "text")
+
+/-- a value of a two-column table: {"int": i} | {"lit": repr(x)} | {"text": s} -/
+def asSVal (j : Json) : R SVal := do
+  if hasFld j "int" then return .int (← getInt j "int")
+  if hasFld j "lit" then return .float (← getStr j "lit")
+  return .text (← getStr j "text")
+
+def jRowsNum (rows : List (List (String × Num))) : Json :=
+  jList (jList fun (fc : String × Num) => Json.arr #[Json.str fc.1, jNum fc.2]) rows
+
+def jSimple (r : Option (String × List (Int × Num))) : Json :=
+  match r with
+  | none => Json.null
+  | some (f, d) => Json.mkObj [("field", Json.str f),
+      ("data", jList (fun (p : Int × Num) => Json.arr #[jInt p.1, jNum p.2]) d)]
+
+def jMeta (r : Option (List (String × List (Num × Num)))) : Json :=
+  jOpt (jList fun (fd : String × List (Num × Num)) =>
+    Json.arr #[Json.str fd.1, jList (fun (p : Num × Num) => Json.arr #[jNum p.1, jNum p.2]) fd.2]) r
+
+def optText (j : Json) (k : String) : R (Option String) :=
+  match j.getObjVal? k with
+  | .ok v => asOpt asStr v
+  | .error _ => pure none
+
+/-- a parameter value: null | {"bool": b} | {"int": i} | {"lit": repr(x)} | {"str": s} -/
+def asPScalar (j : Json) : R PScalar := do
+  if j.isNull then return .none
+  if hasFld j "bool" then return .bool (← getBool j "bool")
+  if hasFld j "int" then return .int (← getInt j "int")
+  if hasFld j "lit" then return .float (← getStr j "lit")
+  return .str (← getStr j "str")
+
+def asPVal (j : Json) : R PVal := do
+  if hasFld j "list" then return .list (← fld j "list" >>= asList asPScalar)
+  if hasFld j "tuple" then return .tuple (← fld j "tuple" >>= asList asPScalar)
+  return .scalar (← asPScalar j)
+
+def jPScalar : PScalar → Json
+  | .none => Json.null
+  | .bool b => Json.mkObj [("bool", Json.bool b)]
+  | .int i => Json.mkObj [("int", jInt i)]
+  | .float lit => Json.mkObj [("lit", Json.str lit)]
+  | .str s => Json.mkObj [("str", Json.str s)]
+
+def jPVal : PVal → Json
+  | .scalar a => jPScalar a
+  | .list l => Json.mkObj [("list", jList jPScalar l)]
+  | .tuple l => Json.mkObj [("tuple", jList jPScalar l)]
+
+def jParams (d : Option (List (String × PVal))) : Json :=
+  jOpt (jList fun (kv : String × PVal) => Json.arr #[Json.str kv.1, jPVal kv.2]) d
+
 def runC18 (op : String) (j : Json) : R Json := do
   match op with
+  | "params" =>
+    -- `write_python` then `read_python` on file texts
+    let dJ ← fld j "data" >>= asArr
+    let d ← dJ.mapM fun e => do
+      let p ← asArr e
+      match p with
+      | [k, v] => do pure (← asStr k, ← asPVal v)
+      | _ => .error "entry"
+    let real ← optText j "impl_text"
+    let text := writePython d
+    pure (Json.mkObj [("text", Json.str (String.ofList text)),
+                      ("back", jParams (readPython text)),
+                      ("expected", jParams (some (d.map fun kv => (kv.1.toLower, kv.2)))),
+                      ("real_parsed", jOpt (fun (t : String) => jParams (readPython t.toList)) real)])
+  | "number" =>
+    -- `_try_make_number` on each string
+    let ss ← fld j "strings" >>= asList asStr
+    pure (Json.mkObj [("values", jList jNum (ss.map tryMakeNumber))])
+  | "csv" =>
+    -- the csv transport alone: records -> text -> records; the real writer's text through the model reader
+    let rows ← fld j "rows" >>= asList (asList asStr)
+    let d := delimOf (← getBool j "tsv")
+    let text := csvWrite d (rows.map fun r => r.map String.toList)
+    let real ← optText j "impl_text"
+    pure (Json.mkObj [("text", Json.str (String.ofList text)),
+                      ("back", jList (jList Json.str) ((csvRead d text).map fun r => r.map String.ofList)),
+                      ("real_parsed", jOpt (fun (t : String) => jList (jList Json.str)
+                          ((csvRead d t.toList).map fun r => r.map String.ofList)) real)])
+  | "table" =>
+    -- `write_tsv` then `read_tsv` on file texts (4 = the n_significant_figures `write_tsv` passes)
+    let rowsJ ← fld j "rows" >>= asArr
+    let rows ← rowsJ.mapM fun r => do
+      let cells ← asArr r
+      cells.mapM fun c => do
+        let p ← asArr c
+        match p with
+        | [f, v] => do pure (← asStr f, ← asWCell v)
+        | _ => .error "cell"
+    let first ← optText j "first"
+    let isTsv ← getBool j "tsv"
+    let real ← optText j "impl_text"
+    match writeTsv (renderW 4) rows first, writeTsvFile isTsv (renderW 4) rows first with
+    | some file, some text =>
+      pure (Json.mkObj [("header", jList Json.str file.1),
+                        ("text", Json.str (String.ofList text)),
+                        ("back", jOpt jRowsNum (readTsvFile tryMakeNumber text)),
+                        ("expected", jRowsNum (expectedRows file.1 (rows.map fun r => r.map fun fc => (fc.1, obsW 4 fc.2)))),
+                        ("real_parsed", jOpt (fun (t : String) => jOpt jRowsNum (readTsvFile tryMakeNumber t.toList)) real),
+                        ("real_header", jOpt (fun (t : String) =>
+                            let lines := fileLines t.toList
+                            jList Json.str (((lines.map (csvParseLine (sniff lines))).headD []).map String.ofList)) real)])
+    | _, _ => pure (Json.mkObj [("header", Json.null)])
+  | "simple" =>
+    let dataJ ← fld j "data" >>= asArr
+    let data ← dataJ.mapM fun e => do
+      let p ← asArr e
+      match p with
+      | [i, v] => do pure (← asInt i, ← asSVal v)
+      | _ => .error "entry"
+    let field ← getStr j "field"
+    let isTsv ← getBool j "tsv"
+    let real ← optText j "impl_text"
+    let text := writeTsvSimple isTsv field data
+    pure (Json.mkObj [("text", Json.str (String.ofList text)),
+                      ("back", jSimple (readTsvSimple text)),
+                      ("expected", jSimple (some (field, (sortById data).map fun p => (p.1, obsS p.2)))),
+                      ("real_parsed", jOpt (fun (t : String) => jSimple (readTsvSimple t.toList)) real),
+                      -- the same file through `load_metadata` (cluster-table reader + regrouping)
+                      ("meta", jMeta (loadMetadata text)),
+                      ("meta_expected", jMeta (some (if data = [] then [] else
+                          [(field, (sortById data).map fun p => (Num.int p.1, obsS p.2))])))])
   | "json" =>
     let entries ← fld j "dict" >>= asArr
     let d ← entries.mapM fun e => do
@@ -89,24 +238,6 @@ def runC18 (op : String) (j : Json) : R Json := do
     let rt := roundTrip d
     pure (Json.mkObj [("model", jList (fun (kv : Key × PV) => Json.arr #[jKey kv.1, jPV kv.2]) rt),
                       ("spec", jList (fun (kv : Key × PV) => Json.arr #[jKey kv.1, jPV (canon kv.2)]) d)])
-  | "tsv" =>
-    let rowsJ ← fld j "rows" >>= asArr
-    let rows ← rowsJ.mapM fun r => do
-      let cells ← asArr r
-      cells.mapM fun c => do
-        let p ← asArr c
-        match p with
-        | [f, v] => do pure (← asStr f, ← asCell v)
-        | _ => .error "cell"
-    let first ← match j.getObjVal? "first" with
-      | .ok v => asOpt asStr v
-      | .error _ => pure none
-    match writeTsv renderCell rows first with
-    | none => pure (Json.mkObj [("header", Json.null)])
-    | some file =>
-      pure (Json.mkObj [("header", jList Json.str file.1),
-                        ("expected", jList (jList fun (fc : String × Cell) => Json.arr #[Json.str fc.1, jCell fc.2])
-                            (expectedRows file.1 rows))])
   | _ => .error s!"C18: unknown op {op}"
 
 end PhyVerif.Driver
